@@ -46,6 +46,24 @@ package main
 // reach its handler and be answered with work-done; a valid signal carrying one must be delivered
 // (it releases a "waitsig" step).
 //
+// Step "keyed" registers its signal handlers (and emitters) under map KEYS that differ from the IDs
+// of the signal schemas stored under them ("stop" -> ID "stop-requested", "cancel-step" -> ID "cancel",
+// "a1" and "a2" -> both ID "same-id"). The hello message announces the keys; the sessions address
+// signals by those keys and the output reader checks that the hello message announces exactly the
+// registered keys. A valid release signal (announced name, known run in progress, accepted data)
+// must be DELIVERED to its handler: that is checked directly on the handler call, not only through
+// the step that waits for it.
+//
+// Signal behaviour "hand": the signal handler hands the signal over to the step on an unbuffered
+// channel and blocks until the step (behaviour "takesig") takes it - or until the end of the script.
+// A late or doubled hand-over therefore parks the signal's goroutine; it must not park the read loop:
+// a message the server does not read within the write timeout, although nothing ended the stream, is a
+// finding.
+//
+// client-done is recognised by its message ID: sessions end with client-done envelopes without any
+// `data` key, without `run_id`, and with oddly typed data (0, "done", [], true, null), with and without
+// a step still running; the harness then keeps its end of the input open and the server has to return.
+//
 // Oracle findings (prop C07): process crash, RunATPServer not returning after input ended and all
 // handlers were released, a run whose number of terminal messages differs from the number of its
 // accepted work-starts while the output was open, corrupted output framing.
@@ -158,6 +176,11 @@ type atpsRunner struct {
 	quiet   bool // stress child: handlers neither log nor wait
 	// "waitsig": opened only by the plugin's signal handler
 	sigGates map[int]chan struct{}
+	// signal handler calls by stream position of the released work-start -> signal key it came under
+	sigDelivered map[int]string
+	// "hand" / "takesig": unbuffered hand-over per work-start; allOpen ends every wait at the end of the script
+	handoffs map[int]chan struct{}
+	allOpen  chan struct{}
 	// number of calls of step "pinit"'s initializer that still have to panic
 	initBudget int32
 	runIDs  map[string]int
@@ -229,10 +252,37 @@ func (r *atpsRunner) openSigGate(src int) {
 	}
 }
 
-// releaseAll opens every gate, including those of handlers that are entered later.
-func (r *atpsRunner) releaseAll() {
+func (r *atpsRunner) handoff(src int) chan struct{} {
 	r.gateMu.Lock()
 	defer r.gateMu.Unlock()
+	if r.handoffs == nil {
+		r.handoffs = map[int]chan struct{}{}
+	}
+	h, ok := r.handoffs[src]
+	if !ok {
+		h = make(chan struct{})
+		r.handoffs[src] = h
+	}
+	return h
+}
+
+func (r *atpsRunner) allOpenCh() chan struct{} {
+	r.gateMu.Lock()
+	defer r.gateMu.Unlock()
+	if r.allOpen == nil {
+		r.allOpen = make(chan struct{})
+	}
+	return r.allOpen
+}
+
+// releaseAll opens every gate, including those of handlers that are entered later.
+func (r *atpsRunner) releaseAll() {
+	all := r.allOpenCh()
+	r.gateMu.Lock()
+	defer r.gateMu.Unlock()
+	if !r.openAll {
+		close(all)
+	}
 	r.openAll = true
 	for _, g := range r.gates {
 		select {
@@ -260,9 +310,15 @@ func (r *atpsRunner) stepHandler(_ context.Context, _ any, in atpsIn) (string, a
 		r.events = append(r.events, map[string]any{"e": "enter", "src": src})
 		r.entered[src] = true
 		r.mu.Unlock()
-		if in.Beh == "waitsig" {
+		switch in.Beh {
+		case "waitsig":
 			<-r.sigGate(src)
-		} else {
+		case "takesig":
+			select {
+			case <-r.handoff(src):
+			case <-r.allOpenCh():
+			}
+		default:
 			<-r.gate(src)
 		}
 		r.mu.Lock()
@@ -283,10 +339,32 @@ func (r *atpsRunner) stepHandler(_ context.Context, _ any, in atpsIn) (string, a
 	return "success", atpsOut{Message: "Hello, " + in.Name + "!"}
 }
 
-func (r *atpsRunner) sigHandler(_ context.Context, _ any, in atpsSigIn) {
+// sigArrived is what every signal handler does first; key is the map key the handler is registered under.
+func (r *atpsRunner) sigArrived(key string, in atpsSigIn) {
 	if in.Src > 0 {
+		r.gateMu.Lock()
+		if r.sigDelivered == nil {
+			r.sigDelivered = map[int]string{}
+		}
+		r.sigDelivered[int(in.Src)] = key
+		r.gateMu.Unlock()
+		if in.Beh == "hand" {
+			select {
+			case r.handoff(int(in.Src)) <- struct{}{}:
+			case <-r.allOpenCh():
+			}
+			return
+		}
 		r.openSigGate(int(in.Src))
 	}
+}
+
+func (r *atpsRunner) keyedSigHandler(key string) func(context.Context, any, atpsSigIn) {
+	return func(_ context.Context, _ any, in atpsSigIn) { r.sigArrived(key, in) }
+}
+
+func (r *atpsRunner) sigHandler(_ context.Context, _ any, in atpsSigIn) {
+	r.sigArrived("sig", in)
 	if in.Beh == "panic" {
 		panic("signal handler panic requested")
 	}
@@ -295,9 +373,7 @@ func (r *atpsRunner) sigHandler(_ context.Context, _ any, in atpsSigIn) {
 type atpsStepData struct{ n int }
 
 func (r *atpsRunner) sigHandler2(_ context.Context, _ *atpsStepData, in atpsSigIn) {
-	if in.Src > 0 {
-		r.openSigGate(int(in.Src))
-	}
+	r.sigArrived("sig", in)
 	if in.Beh == "panic" {
 		panic("signal handler panic requested")
 	}
@@ -363,7 +439,23 @@ func (r *atpsRunner) plugin() *schema.CallableSchema {
 		nil, nil, nil, func(ctx context.Context, _ any, in atpsInMap) (string, any) {
 			return r.stepHandler(ctx, nil, atpsIn{Name: in.Name, Beh: in.Beh, Src: in.Src})
 		})
-	return schema.NewCallableSchema(hello, withInit, panicInit, withMap)
+	// "keyed": handlers and emitters registered under keys that differ from their signal IDs
+	keyedSig := func(key, id string) schema.CallableSignal {
+		return schema.NewCallableSignalFromSchema[any, atpsSigIn](schema.NewSignalSchema(id, sigSchema(), nil), r.keyedSigHandler(key))
+	}
+	keyed := schema.NewCallableStepWithSignals[any, atpsIn]("keyed", inSchema(), outputs(),
+		map[string]schema.CallableSignal{
+			"stop":        keyedSig("stop", "stop-requested"),
+			"cancel-step": keyedSig("cancel-step", "cancel"),
+			"a1":          keyedSig("a1", "same-id"),
+			"a2":          keyedSig("a2", "same-id"),
+		},
+		map[string]*schema.SignalSchema{
+			"progress-key": schema.NewSignalSchema("progress", sigSchema(), nil),
+			"p2":           schema.NewSignalSchema("progress", sigSchema(), nil),
+		},
+		nil, nil, r.stepHandler)
+	return schema.NewCallableSchema(hello, withInit, panicInit, withMap, keyed)
 }
 
 // ---------------------------------------------------------------------------------------------
@@ -388,6 +480,9 @@ type atpsItem struct {
 	// the same for step "imap": additionally a non-empty int-keyed `table`, `extra` absent or such a table
 	WsValidMap bool
 	SgOK    bool
+	SgID    string // signal_id
+	SgSrc   int64  // data.src of a release signal (0 = none)
+	SgValid bool   // the data is what the signal's schema accepts (beh string, src / table optional)
 }
 
 // atpsClassifyStream splits the bytes written so far into complete items (from offset off);
@@ -466,6 +561,32 @@ func atpsClassifyStream(stream []byte, off int, first bool) (items []atpsItem, n
 		var sg atp.SignalMessage
 		if err := cbor.Unmarshal(it.Decoded.RawMessageData, &sg); err == nil {
 			it.SgOK = true
+			it.SgID = sg.SignalID
+			if m, ok := sg.Data.(map[any]any); ok {
+				_, behOK := m["beh"].(string)
+				it.SgValid = behOK
+				for k, v := range m {
+					ks, _ := k.(string)
+					switch ks {
+					case "beh":
+					case "src":
+						switch n := v.(type) {
+						case uint64:
+							it.SgSrc = int64(n)
+						case int64:
+							it.SgSrc = n
+						default:
+							it.SgValid = false
+						}
+					case "table":
+						if !atpsIntKeyedTable(v, false) {
+							it.SgValid = false
+						}
+					default:
+						it.SgValid = false
+					}
+				}
+			}
 		}
 		items = append(items, it)
 	}
@@ -556,6 +677,7 @@ func atpsRunSession(sess *atpsSession, to atpsTimeouts) (out atpsOutcome) {
 	doneCount := map[int]int{}     // run -> work-done messages
 	stepFatal := map[int]int{}     // run -> step-fatal (not server-fatal) error messages
 	wireStepFatal := map[string]int{} // the same by run ID text
+	var announced map[string]map[string][]string // hello message: step -> "handlers" / "emitters" -> keys
 	serverFatalSeen := false       // a server-fatal error message was written
 	readerDone := make(chan struct{})
 	go func() {
@@ -584,6 +706,12 @@ func atpsRunSession(sess *atpsSession, to atpsTimeouts) (out atpsOutcome) {
 							outFindings = append(outFindings, "malformed hello message")
 							outMu.Unlock()
 						}
+						outMu.Lock()
+						announced = atpsAnnounced(h.Schema)
+						for _, what := range atpsCheckAnnounced(announced) {
+							outFindings = append(outFindings, what)
+						}
+						outMu.Unlock()
 						r.log(map[string]any{"e": "out", "m": map[string]any{"k": "hello"}})
 						continue
 					}
@@ -674,6 +802,10 @@ func atpsRunSession(sess *atpsSession, to atpsTimeouts) (out atpsOutcome) {
 		case <-lastAck:
 		case <-time.After(d):
 			if d >= to.write {
+				if !stalledReader && !streamEnded && !outputBroken && !cancelled {
+					out.Findings = append(out.Findings, fmt.Sprintf(
+						"the server stopped reading its input: the message ending at stream position %d was not read within %v although nothing ended the stream (no malformed item, no client-done, output open)", nItems-1, to.write))
+				}
 				stalledReader = true
 			}
 		}
@@ -744,6 +876,39 @@ func atpsRunSession(sess *atpsSession, to atpsTimeouts) (out atpsOutcome) {
 			break
 		}
 	}
+	// a session that ended with client-done: the server has to finish on its own, while the client
+	// keeps its end of the input open
+	alreadyReturned := false
+	var earlyFindings []string
+	if !inputClosed && !outputBroken && !cancelled {
+		doneAt := -1
+		for i, it := range items {
+			if i == 0 && it.Bad {
+				break
+			}
+			if i == 0 {
+				continue
+			}
+			if it.Bad {
+				break
+			}
+			if it.Decoded.MessageID == atp.MessageTypeClientDone {
+				doneAt = i
+				break
+			}
+		}
+		if doneAt > 0 {
+			waitAck(to.write)
+			r.releaseAll()
+			select {
+			case <-returned:
+				alreadyReturned = true
+			case <-time.After(2 * time.Second):
+				earlyFindings = append(earlyFindings, fmt.Sprintf(
+					"RunATPServer did not return within 2s after the client-done message at stream position %d (all handlers released, the client's end of the input still open)", doneAt))
+			}
+		}
+	}
 	// end of script: input ends, every handler is released
 	if !inputClosed {
 		inputClosed = true
@@ -756,12 +921,17 @@ func atpsRunSession(sess *atpsSession, to atpsTimeouts) (out atpsOutcome) {
 	}
 	r.releaseAll()
 	close(writes)
-	select {
-	case <-returned:
+	if alreadyReturned {
 		out.End = "returned"
-	case <-time.After(to.hang):
-		out.End = "hang"
+	} else {
+		select {
+		case <-returned:
+			out.End = "returned"
+		case <-time.After(to.hang):
+			out.End = "hang"
+		}
 	}
+	out.Findings = append(out.Findings, earlyFindings...)
 	if out.End == "returned" {
 		select {
 		case <-readerDone:
@@ -788,6 +958,60 @@ func atpsRunSession(sess *atpsSession, to atpsTimeouts) (out atpsOutcome) {
 	out.Findings = append(out.Findings, outFindings...)
 	if out.End == "hang" {
 		out.Findings = append(out.Findings, fmt.Sprintf("RunATPServer did not return within %v after input ended and all handlers were released", to.hang))
+	}
+	// a valid release signal is delivered to its handler
+	if !outputBroken && !cancelled && !serverFatalSeen && announced != nil {
+		reach3 := true
+		for i, it := range items {
+			if i == 0 {
+				reach3 = !it.Bad
+				continue
+			}
+			if !reach3 || it.Bad || it.Decoded.MessageID == atp.MessageTypeClientDone {
+				reach3 = false
+				continue
+			}
+			if it.Decoded.MessageID != atp.MessageTypeSignal || !it.SgOK || !it.SgValid || it.SgSrc <= 0 || int(it.SgSrc) >= i {
+				continue
+			}
+			ws := items[it.SgSrc]
+			if !ws.accepted() || ws.Decoded.RunID != it.Decoded.RunID || !ws.WsSrcOK || ws.WsSrc != it.SgSrc {
+				continue
+			}
+			if ws.WsStep == "pinit" && sess.InitPanics > 0 {
+				continue
+			}
+			known := false
+			for _, k := range announced[ws.WsStep]["handlers"] {
+				if k == it.SgID {
+					known = true
+				}
+			}
+			if !known {
+				continue
+			}
+			// a later work-start with the same run ID would take the signal over
+			taken := false
+			for j := int(it.SgSrc) + 1; j < i; j++ {
+				if items[j].accepted() && items[j].Decoded.RunID == it.Decoded.RunID {
+					taken = true
+				}
+			}
+			if taken {
+				continue
+			}
+			r.gateMu.Lock()
+			key, delivered := r.sigDelivered[int(it.SgSrc)]
+			r.gateMu.Unlock()
+			if !delivered {
+				out.Findings = append(out.Findings, fmt.Sprintf(
+					"the signal %q at stream position %d for run %q (step %q announces it in the hello message, its data is valid, the run was started at position %d) was not delivered to its handler",
+					it.SgID, i, it.Decoded.RunID, ws.WsStep, it.SgSrc))
+			} else if key != it.SgID && key != "sig" {
+				out.Findings = append(out.Findings, fmt.Sprintf(
+					"the signal %q at stream position %d for run %q was delivered to the handler registered as %q", it.SgID, i, it.Decoded.RunID, key))
+			}
+		}
 	}
 	// a failing step is reported on the wire or in the returned slice, whenever it fails
 	if out.End == "returned" {
@@ -976,6 +1200,49 @@ func atpsSig(run any, sig string, beh any) map[string]any {
 	return m
 }
 
+// atpsAnnounced reads the signal handler and emitter names of every step out of the hello message.
+func atpsAnnounced(sch any) map[string]map[string][]string {
+	out := map[string]map[string][]string{}
+	root, _ := sch.(map[any]any)
+	steps, _ := root["steps"].(map[any]any)
+	for id, st := range steps {
+		sid, _ := id.(string)
+		m, _ := st.(map[any]any)
+		entry := map[string][]string{}
+		for field, name := range map[string]string{"signal_handlers": "handlers", "signal_emitters": "emitters"} {
+			keys := []string{}
+			if hm, ok := m[field].(map[any]any); ok {
+				for k := range hm {
+					if ks, ok := k.(string); ok {
+						keys = append(keys, ks)
+					}
+				}
+			}
+			sort.Strings(keys)
+			entry[name] = keys
+		}
+		out[sid] = entry
+	}
+	return out
+}
+
+// atpsCheckAnnounced: step "keyed" must be announced with the keys its handlers and emitters are
+// registered under.
+func atpsCheckAnnounced(a map[string]map[string][]string) []string {
+	var out []string
+	k, ok := a["keyed"]
+	if !ok {
+		return []string{"the hello message does not announce step \"keyed\""}
+	}
+	if got, want := strings.Join(k["handlers"], ","), "a1,a2,cancel-step,stop"; got != want {
+		out = append(out, fmt.Sprintf("the hello message announces the signal handlers of step \"keyed\" as [%s], they are registered as [%s]", got, want))
+	}
+	if got, want := strings.Join(k["emitters"], ","), "p2,progress-key"; got != want {
+		out = append(out, fmt.Sprintf("the hello message announces the signal emitters of step \"keyed\" as [%s], they are registered as [%s]", got, want))
+	}
+	return out
+}
+
 // atpsIntKeyedTable: a non-empty CBOR map whose keys are integers and whose values are text; with
 // nested, also a map with one text key holding such a table.
 func atpsIntKeyedTable(v any, nested bool) bool {
@@ -1010,6 +1277,25 @@ func atpsWSMap(run string, name, beh string, src int, table map[int]string, extr
 		cfg["extra"] = extra
 	}
 	return map[string]any{"id": uint32(1), "run_id": run, "data": map[string]any{"id": "imap", "config": cfg}}
+}
+
+// atpsSigKey is a release / hand-over signal addressed by the handler's key.
+func atpsSigKey(run, key, beh string, src int) map[string]any {
+	return map[string]any{"id": uint32(3), "run_id": run, "data": map[string]any{"signal_id": key, "data": map[string]any{"beh": beh, "src": src}}}
+}
+
+// atpsClientDoneVariants: client-done is recognised by its message ID alone.
+func atpsClientDoneVariants() []map[string]any {
+	return []map[string]any{
+		{"id": uint32(4)},
+		{"id": uint32(4), "run_id": ""},
+		{"id": uint32(4), "run_id": "", "data": 0},
+		{"id": uint32(4), "run_id": "", "data": "done"},
+		{"id": uint32(4), "run_id": "", "data": []any{}},
+		{"id": uint32(4), "run_id": "", "data": true},
+		{"id": uint32(4), "run_id": "", "data": nil},
+		{"id": uint32(4), "run_id": "r1", "data": map[string]any{"unexpected": 1}},
+	}
 }
 
 // atpsReleaseMap is atpsRelease carrying an int-keyed map in the signal's data.
@@ -1060,6 +1346,8 @@ func (g *atpsGen) message(idx int, runs *[]string) (b []byte, gated bool, note s
 	case 2:
 		step = "pinit"
 		g.usedPinit = true
+	case 3:
+		step = "keyed"
 	}
 	beh := atpsBehs[g.r.Intn(len(atpsBehs))]
 	switch k := g.r.Intn(100); {
@@ -1152,6 +1440,10 @@ func (g *atpsGen) message(idx int, runs *[]string) (b []byte, gated bool, note s
 			atpsEnc(map[string]any{"id": "one"}), atpsEnc(map[string]any{"id": uint32(1), "run_id": 5}), {0x62, 0xff, 0xfe}, atpsEnc(map[string]any{"id": -1})}
 		return bad[g.r.Intn(len(bad))], false, "malformed"
 	case k < 94:
+		if g.r.Intn(2) == 0 {
+			vs := atpsClientDoneVariants()
+			return atpsEnc(vs[g.r.Intn(len(vs))]), false, "client-done-odd-payload"
+		}
 		return atpsEnc(atpsClientDone()), false, "client-done"
 	default:
 		// a signal to a run whose work-start named an unknown step (the run ID is in runningSteps)
@@ -1328,6 +1620,30 @@ func atpsDirected(nextID func() int) []*atpsSession {
 			send(atpsWS("r1", id, "a", "ok", 1)), atpsAction{Op: "settle"}, send(atpsWS("r2", "hello", "b", "ok", 2)), rel(2),
 			send(atpsSig("r2", id, "ok")), send(atpsSig("r1", id, "ok")), atpsAction{Op: "settle"}, send(atpsClientDone())))
 	}
+	// signal handlers registered under keys that differ from their signal IDs (also two with the same ID)
+	for _, key := range []string{"stop", "cancel-step", "a1", "a2"} {
+		out = append(out, mk("step waits for the signal announced as "+key,
+			send(atpsWS("r1", "keyed", "a", "waitsig", 1)), atpsAction{Op: "settle"}, send(atpsSigKey("r1", key, "ok", 1)), atpsAction{Op: "settle"}, send(atpsClientDone())))
+	}
+	out = append(out, mk("two steps wait for the two signals that share an ID",
+		send(atpsWS("r1", "keyed", "a", "waitsig", 1)), send(atpsWS("r2", "keyed", "b", "waitsig", 2)), atpsAction{Op: "settle"},
+		send(atpsSigKey("r2", "a2", "ok", 2)), send(atpsSigKey("r1", "a1", "ok", 1)), atpsAction{Op: "settle"}, send(atpsClientDone())))
+	// client-done with absent or oddly typed payload, nothing running / a step still running
+	for i, v := range atpsClientDoneVariants() {
+		out = append(out, mk(fmt.Sprintf("client-done variant #%d, nothing running", i), send(atpsWS("r1", "hello", "a", "ok", 1)), rel(1), atpsAction{Op: "settle"}, send(v)))
+		out = append(out, mk(fmt.Sprintf("client-done variant #%d, a step still running", i), send(atpsWS("r1", "init", "a", []string{"ok", "undeclared"}[i%2], 1)), atpsAction{Op: "settle"}, send(v), atpsAction{Op: "settle"}, rel(1)))
+	}
+	// a signal handler that blocks until the step takes the signal: a late and a doubled hand-over
+	// park the signal's goroutine, the read loop goes on with the work-starts behind them
+	out = append(out,
+		mk("late hand-over, then more work", send(atpsWS("r1", "hello", "a", "takesig", 1)), atpsAction{Op: "settle"}, send(atpsSigKey("r1", "sig", "hand", 1)), atpsAction{Op: "settle"},
+			send(atpsSigKey("r1", "sig", "hand", 1)), atpsAction{Op: "settle"}, send(atpsWS("r2", "hello", "b", "ok", 4)), rel(4), send(atpsWS("r3", "init", "c", "errout", 5)), rel(5), atpsAction{Op: "settle"}, send(atpsClientDone())),
+		mk("doubled hand-over in one write, then more work", send(atpsWS("r1", "keyed", "a", "takesig", 1)), atpsAction{Op: "settle"},
+			atpsAction{Op: "send", Bytes: append(atpsEnc(atpsSigKey("r1", "stop", "hand", 1)), atpsEnc(atpsSigKey("r1", "stop", "hand", 1))...)}, atpsAction{Op: "settle"},
+			send(atpsWS("r2", "hello", "b", "waitsig", 4)), atpsAction{Op: "settle"}, send(atpsRelease("r2", 4)), send(atpsWS("r3", "hello", "c", "ok", 6)), rel(6), atpsAction{Op: "settle"}, send(atpsClientDone())),
+		mk("hand-over to a step that already ended, then more work", send(atpsWS("r1", "hello", "a", "ok", 1)), rel(1), atpsAction{Op: "settle"}, send(atpsSigKey("r1", "sig", "hand", 1)), atpsAction{Op: "settle"},
+			send(atpsWS("r2", "hello", "b", "ok", 3)), rel(3), send(atpsWS("r3", "hello", "c", "panic", 4)), rel(4), atpsAction{Op: "settle"}, send(atpsClientDone())),
+	)
 	// payloads with integer-keyed maps: in the step input, in an any-typed property (also nested),
 	// and in the data of the signal that releases a waiting step
 	out = append(out,
